@@ -158,14 +158,13 @@ def jwTwoBody (p q r s : Nat) (c : GQ) : Op := foldSigned tol (twoBodyOps p q r 
 
 /-! ### `_jordan_wigner_interaction_op` -/
 
-/-- `itertools.combinations(range(n), 2)` -/
-def pairs (n : Nat) : List (Nat × Nat) :=
-  (List.range n).flatMap fun p => (List.range' (p + 1) (n - (p + 1))).map fun q => (p, q)
-
 /-- `itertools.combinations(l, 2)` -/
 def combs2 {α} : List α → List (α × α)
   | [] => []
   | x :: r => r.map (fun y => (x, y)) ++ combs2 r
+
+/-- `itertools.combinations(range(n), 2)` -/
+def pairs (n : Nat) : List (Nat × Nat) := combs2 (List.range n)
 
 /-- tensors are passed row-major; an out-of-range lookup cannot happen because the
 loops run over the tensor size -/
@@ -296,6 +295,51 @@ def jwOneBodyOk (tol : Rat) (p q : Nat) (c : GQ) : Bool := sumOk tol (oneBodyImg
 def plain (so : Bool × Op) : Op := if so.1 then so.2 else so.2.map fun tc => (tc.1, -tc.2)
 
 def jwTwoBodyOk (tol : Rat) (p q r s : Nat) (c : GQ) : Bool := sumOk tol ((twoBodyOps p q r s c).map plain)
+
+/-- `acc = acc0; for img in imgs: acc += img` — were all the `+=` exact? -/
+def sumOkFrom (tol : Rat) (acc0 : Op) (imgs : List Op) : Bool :=
+  (imgs.foldl (fun (st : Op × Bool) img => (iadd tol st.1 img, st.2 && iaddOk tol st.1 img)) (acc0, true)).2
+
+/-- coefficients computed by `_jordan_wigner_interaction_op` -/
+def iopC1 (n : Nat) (one : List GQ) (p q : Nat) : GQ := half * (get1 n one p q + (get1 n one q p).conj)
+def iopC2 (n : Nat) (two : List GQ) (p q : Nat) : GQ :=
+  get2 n two p q p q - get2 n two p q q p - get2 n two q p p q + get2 n two q p q p
+def iopC4 (n : Nat) (two : List GQ) (p q r s : Nat) : GQ :=
+  half * (get2 n two p q r s + (get2 n two s r q p).conj - get2 n two p q s r - (get2 n two r s q p).conj
+          - get2 n two q p r s - (get2 n two s r p q).conj + get2 n two q p s r + (get2 n two r s p q).conj)
+
+/-- the operands `_jordan_wigner_interaction_op` adds to `QubitOperator((), constant)`, in program order -/
+def iopImgs (tol : Rat) (n : Nat) (one two : List GQ) : List Op :=
+  (List.range n).map (fun p => jwOneBody tol p p (get1 n one p p))
+  ++ (pairs n).flatMap (fun pq => [jwOneBody tol pq.1 pq.2 (iopC1 n one pq.1 pq.2),
+                                   jwTwoBody tol pq.1 pq.2 pq.1 pq.2 (iopC2 n two pq.1 pq.2)])
+  ++ (combs2 (pairs n)).map (fun x => jwTwoBody tol x.1.1 x.1.2 x.2.1 x.2.2 (iopC4 n two x.1.1 x.1.2 x.2.1 x.2.2))
+
+/-- the operands `_jordan_wigner_diagonal_coulomb_hamiltonian` adds to `QubitOperator((), constant)` -/
+def dchImgs (n : Nat) (one two : List GQ) : List Op :=
+  (List.range n).flatMap (fun p =>
+    [mk .qubit [(p, 3)] (rl (-(mkRat 1 2)) * (get1 n one p p + get1 n two p p)),
+     mk .qubit [] (half * (get1 n one p p + get1 n two p p))])
+  ++ (pairs n).flatMap (fun pq =>
+    [mk .qubit ([(pq.1, 1)] ++ zs (pq.1 + 1) pq.2 ++ [(pq.2, 1)]) (rl (mkRat 1 2 * (get1 n one pq.1 pq.2).re)),
+     mk .qubit ([(pq.1, 2)] ++ zs (pq.1 + 1) pq.2 ++ [(pq.2, 2)]) (rl (mkRat 1 2 * (get1 n one pq.1 pq.2).re)),
+     mk .qubit ([(pq.1, 2)] ++ zs (pq.1 + 1) pq.2 ++ [(pq.2, 1)]) (rl (mkRat 1 2 * (get1 n one pq.1 pq.2).im)),
+     mk .qubit ([(pq.1, 1)] ++ zs (pq.1 + 1) pq.2 ++ [(pq.2, 2)]) (rl (-(mkRat 1 2) * (get1 n one pq.1 pq.2).im)),
+     mk .qubit [(pq.1, 3), (pq.2, 3)] (half * get1 n two pq.1 pq.2),
+     mk .qubit [(pq.1, 3)] (rl (-(mkRat 1 2)) * get1 n two pq.1 pq.2),
+     mk .qubit [(pq.2, 3)] (rl (-(mkRat 1 2)) * get1 n two pq.1 pq.2),
+     mk .qubit [] (half * get1 n two pq.1 pq.2)])
+
+def jwDCHOk (tol : Rat) (n : Nat) (const : GQ) (one two : List GQ) : Bool :=
+  sumOkFrom tol (mk .qubit [] const) (dchImgs n one two)
+
+/-- exact regime of `jordan_wigner(InteractionOperator)`: all inner helper calls and all outer `+=` exact -/
+def jwInteractionOpOk (tol : Rat) (n : Nat) (const : GQ) (one two : List GQ) : Bool :=
+  (List.range n).all (fun p => jwOneBodyOk tol p p (get1 n one p p))
+  && (pairs n).all (fun pq => jwOneBodyOk tol pq.1 pq.2 (iopC1 n one pq.1 pq.2)
+        && jwTwoBodyOk tol pq.1 pq.2 pq.1 pq.2 (iopC2 n two pq.1 pq.2))
+  && (combs2 (pairs n)).all (fun x => jwTwoBodyOk tol x.1.1 x.1.2 x.2.1 x.2.2 (iopC4 n two x.1.1 x.1.2 x.2.1 x.2.2))
+  && sumOkFrom tol (mk .qubit [] const) (iopImgs tol n one two)
 
 end C04
 end Model
